@@ -36,6 +36,7 @@ type c35Event struct {
 	kind int
 	id   cppki.TRCID // requested id (fetch) / id of the TRC handed to InsertTRC
 	tag  int         // which fetched TRC (fetch ok, insert)
+	got  cppki.TRCID // fetch ok: the ID of the TRC the remote answered with
 }
 
 type c35Env struct {
@@ -153,12 +154,12 @@ func (f c35Fetcher) TRC(_ context.Context, id cppki.TRCID, _ net.Addr) (cppki.Si
 	}
 	tag := e.nFetched
 	e.nFetched++
-	e.events = append(e.events, c35Event{kind: c35FetchOK, id: id, tag: tag})
 	got := cppki.TRCID{
 		ISD:    addr.ISD(verif.NondetU16("fetched.isd")),
 		Base:   scrypto.Version(verif.NondetU64("fetched.base")),
 		Serial: scrypto.Version(verif.NondetU64("fetched.serial")),
 	}
+	e.events = append(e.events, c35Event{kind: c35FetchOK, id: id, tag: tag, got: got})
 	e.payloadOK[tag] = verif.NondetBool("fetched.payload-valid")
 	return c35TRC(tag, got, e.latest.TRC.Certificates[0]), nil
 }
@@ -276,8 +277,12 @@ func VerifC35Notify() {
 			if ev.kind == c35FetchFail {
 				stopped = true
 			} else if i+1 >= n || e.events[i+1].kind == c35FetchOK || e.events[i+1].kind == c35FetchFail {
-				// fetched but not handed to the DB: the update was rejected; that must end the run
+				// fetched but not handed to the DB: the update was rejected; that must end the run, and
+				// only a TRC that cannot be verified as successor of the previous latest may be rejected
 				stopped = true
+				idOK := ev.got == cppki.TRCID{ISD: e.isd0, Base: base, Serial: next}
+				verifiable := idOK && e.payloadOK[ev.tag] && !e.sigFailed[ev.tag]
+				verif.Assert("rejects-only-what-cannot-be-verified", !verifiable)
 			}
 		case c35InsertOK, c35InsertFail:
 			verif.Assert("insert-follows-its-fetch", i > 0 && e.events[i-1].kind == c35FetchOK && e.events[i-1].tag == ev.tag)
